@@ -9,10 +9,11 @@ package ensemble
 //@ func ensemble.Select(ensemble, context) (esm, err)
 //@ property C19
 //@ requires context != nil && context.Candidates != nil && ensemble.singleServerSelector != nil && 0 <= context.Replicas && context.Replicas < 1000000
-//@ loop 0 invariant 0 <= idx && idx <= context.Replicas && len(esm) == context.Replicas && sServerContext != nil && sServerContext.Candidates != nil && selected != nil && sServerContext.selected == selected && fresh(selected) && fresh(sServerContext) && fresh(esm)
+//@ loop 0 invariant 0 <= idx && idx < context.Replicas && len(esm) == context.Replicas && sServerContext != nil && sServerContext.Candidates != nil && selected != nil && sServerContext.selected == selected && fresh(selected) && fresh(sServerContext) && fresh(esm)
 //@ loop 0 invariant forall k string :: ghset(members, sServerContext.Candidates, k) ==> ghset(members, old(context.Candidates), k) && !ghset(members, selected, k)
 //@ loop 0 invariant forall i int :: 0 <= i && i < idx && esm[i] != "" ==> ghset(members, selected, esm[i]) && ghset(members, old(context.Candidates), esm[i])
 //@ loop 0 invariant forall i int, j int :: 0 <= i && i < j && j < idx && esm[i] != "" && esm[j] != "" ==> esm[i] != esm[j]
+//@ loop 0 invariant forall j int :: idx <= j && j < len(esm) ==> esm[j] == ""
 //@ loop 0 invariant ghost(size, selected) <= idx && (ghost(size, selected) == idx ==> forall i int :: 0 <= i && i < idx ==> esm[i] != "")
 //@ ensures err == nil ==> len(esm) == context.Replicas
 //@ ensures err == nil ==> forall i int :: 0 <= i && i < len(esm) ==> esm[i] != "" && ghset(members, old(context.Candidates), esm[i])
